@@ -16,6 +16,7 @@ package scanner
 
 import (
 	"container/list"
+	"sync"
 	"time"
 )
 
@@ -25,6 +26,8 @@ type compactRecord struct {
 }
 
 type compactRecordQueue struct {
+	// mu guards list: Compact may be called concurrently (client requests and the leader's periodic job)
+	mu   sync.Mutex
 	list *list.List
 }
 
@@ -35,14 +38,22 @@ func newCompactRecordQueue() *compactRecordQueue {
 }
 
 func (c *compactRecordQueue) push(cr *compactRecord) {
+	c.mu.Lock()
+	defer c.mu.Unlock()
 	c.list.PushBack(cr)
 }
 
 func (c *compactRecordQueue) pop() {
-	c.list.Remove(c.list.Front())
+	c.mu.Lock()
+	defer c.mu.Unlock()
+	if front := c.list.Front(); front != nil {
+		c.list.Remove(front)
+	}
 }
 
 func (c *compactRecordQueue) head() *compactRecord {
+	c.mu.Lock()
+	defer c.mu.Unlock()
 	elem := c.list.Front()
 	if elem == nil {
 		return nil
